@@ -9,6 +9,27 @@ sys.path.insert(0, os.path.dirname(os.path.abspath(__file__)))
 import common  # noqa
 
 
+def watchdog(seconds, prop):
+    """a check that runs too long is a broken check (exit 2), never a verdict"""
+    import faulthandler
+    import signal
+    import threading
+
+    def fire():
+        sys.stderr.write("CHECK-BROKEN %s: watchdog after %d s; stacks follow\n" % (prop, seconds))
+        faulthandler.dump_traceback(all_threads=True)
+        print("CHECK-BROKEN %s: timed out after %d s" % (prop, seconds))
+        sys.stdout.flush()
+        os._exit(2)
+    t = threading.Timer(seconds, fire)
+    t.daemon = True
+    t.start()
+    try:
+        faulthandler.register(signal.SIGUSR1, all_threads=True)
+    except Exception:
+        pass
+
+
 def main():
     ap = argparse.ArgumentParser()
     ap.add_argument("prop")
@@ -22,6 +43,8 @@ def main():
         seed = 0
     if args.prop == "setup":
         return setup()
+    tier = args.tier if args.tier in ("quick", "thorough") else "quick"
+    watchdog(int(os.environ.get("VERIF_WATCHDOG", "900" if tier == "quick" else "7200")), args.prop)
     mod = importlib.import_module("props." + args.prop)
     chk = common.Check(args.prop, args.tier if args.tier in ("quick", "thorough") else "quick", seed)
     try:
